@@ -539,6 +539,113 @@ def h_tridonic_rx(ctx):
     return c16_pairing.h_tridonic_single(ctx, 1)
 
 
+# ---------------------------------------------------------------------------------------------
+# two commands of (possibly) different widths through the same driver object: nothing of the first
+# packet may show up in the second (buffers kept between sends)
+
+def h_tridonic_tx2(ctx, bits1, bits2, twice2):
+    seq0 = ctx.fresh("seq0", 1, 255)
+    with rigs.HidRig(ctx, seq0) as rig:
+        x1 = ctx.fresh("x1", 0, (1 << bits1) - 1)
+        x2 = ctx.fresh("x2", 0, (1 << bits2) - 1)
+        c1 = rigs.make_command(F.ForwardFrame(bits1, x1))
+        c2 = rigs.make_command(F.ForwardFrame(bits2, x2), sendtwice=twice2)
+        out = {}
+
+        async def main(loop):
+            d = await rigs.tridonic_connect(loop, rig)
+            n0 = len(rig.os.writes)
+
+            def gateway(data):
+                if data[0] != 0x12:
+                    return
+                s = data[1]
+                two = len(rig.os.writes) - n0 == 2 and twice2
+                wide = (bits1 if len(rig.os.writes) - n0 == 1 else bits2) == 24
+                echo = rigs.tridonic_report(0x12, 0x76 if wide else 0x73, [0, 0, 0xFE, 0x00], s)
+                for _ in range(2 if two else 1):
+                    loop.call_soon(rig.deliver, loop, d, echo)
+                loop.call_soon(rig.deliver, loop, d, rigs.tridonic_report(0x12, 0x71, [0, 0, 0, 0], s))
+            rig.os.on_write = gateway
+            await asyncio.wait_for(d.send(c1), 5)
+            await asyncio.wait_for(d.send(c2), 5)
+            out["writes"] = rig.os.writes[n0:]
+            d.disconnect()
+            await vloop.settle(2)
+        st, r = call(vloop.run, main)
+        if st == "exc":
+            ctx.fail("send raised %r" % (r,), key="tridonic/tx2-raised:" + type(r).__name__)
+            return "raised"
+        w = out["writes"]
+        ctx.prove(len(w) == 2, "%d reports written for two commands" % len(w), key="tridonic/tx2-count")
+        if len(w) == 2:
+            ctx.prove(_eq_bytes(w[0], WF.tridonic_tx_report(seq0, x1, bits1, False)),
+                      "first report differs from the send format", key="tridonic/tx2-first")
+            s2 = w[1][1]
+            ctx.prove(E.and_(E.between(1, s2, 255), E.ne(s2, seq0)), "second sequence number out of range or repeated",
+                      key="tridonic/tx2-seq")
+            ctx.prove(_eq_bytes(w[1], WF.tridonic_tx_report(s2, x2, bits2, twice2)),
+                      "second report (after a %d-bit command) differs from the send format" % bits1,
+                      key="tridonic/tx2-second")
+        return "ok"
+
+
+def h_serial_tx2(ctx, which, bits1, bits2, twice2):
+    x1 = ctx.fresh("x1", 0, (1 << bits1) - 1)
+    x2 = ctx.fresh("x2", 0, (1 << bits2) - 1)
+    c1 = rigs.make_command(F.ForwardFrame(bits1, x1))
+    c2 = rigs.make_command(F.ForwardFrame(bits2, x2), sendtwice=twice2)
+    out = {}
+
+    async def main(loop):
+        if which == "luba":
+            d, p, t = rigs.luba_driver(loop)
+
+            def gateway(data):
+                for _ in range(2 if (twice2 and len(t.writes) == 2) else 1):
+                    loop.call_soon(p.data_received, rigs.luba_event_tx(5, [0xFE, 0x00]))
+        else:
+            d, p, t = rigs.sci_driver(loop)
+
+            def gateway(data):
+                loop.call_soon(p.data_received, rigs.sci_frame(0x10, 0, 0, 0))
+        t.on_write = gateway
+        await asyncio.wait_for(d.send(c1), 5)
+        await asyncio.wait_for(d.send(c2), 5)
+        out["w"] = list(t.writes)
+    st, r = call(vloop.run, main)
+    if st == "exc":
+        ctx.fail("send raised %r" % (r,), key=which + "/tx2-raised:" + type(r).__name__)
+        return "raised"
+    w = out["w"]
+    ctx.prove(len(w) == 2, "%d packets written for two commands" % len(w), key=which + "/tx2-count")
+    if len(w) != 2:
+        return "count"
+    for k, (pkt, x, bits, twice) in enumerate(((w[0], x1, bits1, False), (w[1], x2, bits2, twice2))):
+        tag = "%s/tx2-%s" % (which, "first" if k == 0 else "second")
+        if which == "luba":
+            if len(pkt) != 11:
+                ctx.fail("packet length %d" % len(pkt), key=tag + "-len")
+                continue
+            prio = pkt[5] & 0x07
+            ctx.prove(_eq_bytes(pkt, WF.luba_tx_frame(_bytes_of(x, bits), twice, prio)),
+                      "packet differs from the LUBA 'add DALI frame to TX buffer' format", key=tag + "-bytes")
+        else:
+            if len(pkt) != 5:
+                ctx.fail("packet length %d" % len(pkt), key=tag + "-len")
+                continue
+            fb = _bytes_of(x, bits)
+            ctrl = 0x80 | 0x20 | (0x10 if twice else 0) | {16: 3, 24: 8}[bits]
+            ctx.prove(E.and_(E.eq(pkt[0], ctrl), E.eq(pkt[4], pkt[0] ^ pkt[1] ^ pkt[2] ^ pkt[3])),
+                      "control byte or checksum wrong", key=tag + "-control")
+            if bits == 24:
+                ctx.prove(_eq_bytes(pkt[1:4], fb), "24-bit frame not in hi/mi/lo", key=tag + "-data24")
+            else:
+                ctx.prove(E.or_(_eq_bytes(pkt[1:4], fb + [0]), _eq_bytes(pkt[1:4], [0] + fb)),
+                          "16-bit frame bytes not contiguous / stale byte in the data field", key=tag + "-data16")
+    return "ok"
+
+
 def cases(tier):
     cs = [Case("luba-rx", h_serial_rx, {"which": "luba"}), Case("sci-rx", h_serial_rx, {"which": "sci"}),
           Case("tridonic-rx", h_tridonic_rx, {}, install=rigs.install_tridonic_structs),
@@ -548,6 +655,12 @@ def cases(tier):
           Case("luba-width", h_serial_width, {"which": "luba"}, width=128),
           Case("sci-width", h_serial_width, {"which": "sci"}, width=128),
           Case("legacy-tridonic-sn", h_legacy_tridonic_sn, {})]
+    for b1, b2, tw in ((24, 16, False), (16, 24, False), (24, 16, True), (16, 16, False)):
+        cs.append(Case("tridonic-tx2-%d-%d-%d" % (b1, b2, tw), h_tridonic_tx2,
+                       {"bits1": b1, "bits2": b2, "twice2": tw}, install=rigs.install_tridonic_structs))
+        for which in ("luba", "sci"):
+            cs.append(Case("%s-tx2-%d-%d-%d" % (which, b1, b2, tw), h_serial_tx2,
+                           {"which": which, "bits1": b1, "bits2": b2, "twice2": tw}))
     from spec import iec_tables as T
     for i, row in enumerate(T.ROWS):
         if row[2] in ("dapc", "std", "special") and (tier != "quick" or row[0] == 102):
